@@ -26,6 +26,10 @@ def run(tier, seed):
     items += [(RS.dae_reset('C14'),), (RS.dae_init_t('C14'),), (RS.fix_view_arrays('C14'), None, RS.replay_snapshot),
               (__import__('contracts.fn_address', fromlist=['x']).set_arrays_inplace('C14'),),
               (RS.save_ss_c('C14'), None, RS.replay_snapshot), (RS.load_ss_c('C14'), None, RS.replay_snapshot)]
+    # a restored system computes with the restored arrays: every per-call argument list is rebuilt from the name table (also the
+    # lists of the variable services, which are evaluated in every iteration), whatever state the model's flags are in
+    from contracts import C02_binding as B2
+    items += [(B2.refresh_inputs_arg('C14'), None, B2.replay_inputs_arg)]
     run_contracts(pack, items)
     RS.bounded_reset(pack, 'C14')
     from contracts.packutil import native_guard
